@@ -13,4 +13,4 @@ for p in "$@"; do
 done
 git -C /repo worktree remove --force "$wt"; git -C /repo worktree prune
 cp "$save"/*.json /verif/evidence/ 2>/dev/null; rm -rf "$save"
-(cd /verif && for t in gen_tables gen_limbs gen_asm gen_pins gen_effects gen_go gen_blake; do [ -x .build/$t ] && .build/$t /repo lean/I3/Gen >/dev/null 2>&1; done; rm -rf .build/harness_src; true)
+(cd /verif && for t in gen_tables gen_limbs gen_asm gen_pins gen_effects gen_go gen_blake gen_keccak; do [ -x .build/$t ] && .build/$t /repo lean/I3/Gen >/dev/null 2>&1; done; rm -rf .build/harness_src; true)
